@@ -28,7 +28,7 @@ func main() {
 	case "replay":
 		cmdReplay(os.Args[2:])
 	case "ssa":
-		ov, _ := loadOverlay("/repo", "/verif/harness")
+		ov, _ := loadOverlay("/repo", verifDir+"/harness")
 		eng, err := sym.Load("/repo", ov)
 		if err != nil {
 			fatal2("%v", err)
@@ -68,7 +68,7 @@ func loadOverlay(repo, harnessDir string) (map[string][]byte, error) {
 func cmdRun(args []string) {
 	fs := flag.NewFlagSet("run", flag.ExitOnError)
 	repo := fs.String("repo", "/repo", "repository directory")
-	hdir := fs.String("harness", "/verif/harness", "harness directory")
+	hdir := fs.String("harness", verifDir+"/harness", "harness directory")
 	pkg := fs.String("pkg", "", "package (relative)")
 	fn := fs.String("fn", "", "harness function")
 	bounds := fs.String("bounds", "", "N=3,M=2")
